@@ -198,7 +198,7 @@ func ruleConsumerPrivate(r *Run, p *Prog) {
 }
 
 func checkC11(r *Run) {
-	r.Explain = "Does NOT decide the schedule-quantified inequality delivered + reported >= written. Decides the structural conditions it rests on: DRAIN in both Poller.Next and Waiter.Next every end-of-stream return follows a failed TryNext and then a true isDone() (never isDone first), so Close delivers what is still in the ring; CLOSE Writer.Close orders cancel → wait for poll → close the wrapped writer, done is closed only by poll's deferred close, poll ends only on a nil from Next; FATAL Logger.Fatal closes a closable writer before os.Exit and the writer wrappers forward Close; A20 unsigned subtractions in the diode are dominated by an order check on the same operands, and A21 every claimed ring position is published — both report ManyToOne.Set (KNOWN-FINDINGs: first-lap underflow makes the newer-bucket test vacuous; a producer that loses its slot abandons the claimed position, leaving a hole at which the consumer stalls); TryNext's dropped count is guarded."
+	r.Explain = "Does NOT decide the schedule-quantified inequality delivered + reported >= written. Decides the structural conditions it rests on: DRAIN in both Poller.Next and Waiter.Next every end-of-stream return follows a failed TryNext and then a true isDone() (never isDone first), so Close delivers what is still in the ring; CLOSE Writer.Close orders cancel → wait for poll → close the wrapped writer, done is closed only by poll's deferred close, poll ends only on a nil from Next; FATAL Logger.Fatal closes a closable writer before os.Exit and the writer wrappers forward Close; A20 unsigned subtractions in the diode are dominated by an order check on the same operands, and A21 every claimed ring position is published — both report ManyToOne.Set (KNOWN-FINDINGs: first-lap underflow makes the newer-bucket test vacuous; a producer that loses its slot abandons the claimed position, leaving a hole at which the consumer stalls); ALERT the drop report reaches the user: TryNext fast-forwards readIndex only together with alerter.Alert(new − old), NewManyToOne keeps the caller's alerter, AlertFunc.Alert forwards unconditionally, and diode.NewWriter hands the ring the user's Alerter (or a wrapper that calls it on every path)."
 	r.NotDec = "delivered + reported >= written over all interleavings; that no message is dropped while fewer than the ring size are outstanding: schedule-quantified."
 	r.Assume = []string{"the two known findings are genuine per the property's own confirmation on the real code; no small safe repair exists (vendored lock-free protocol)"}
 	p := r.Use("J")
@@ -211,6 +211,8 @@ func checkC11(r *Run) {
 	ruleFatalCloses(r, p, "FATAL")
 	ruleA20(r, p, "A20")
 	ruleA21(r, p, "A21")
+	ruleAlertWiring(r, p, "ALERT")
+	r.Floor("ALERT", 7)
 	r.Floor("DRAIN", 2)
 	r.Floor("CLOSE", 3)
 	r.Floor("FATAL", 5)
